@@ -150,7 +150,7 @@ def corpus_cases():
 
 
 def gen_cases(rng, tier):
-    n = 450 if tier == "quick" else 3000
+    n = 450 if tier == "quick" else 1600
     out = [g_case(rng, rng.choice([1, 2, 2, 3])) for _ in range(n)]
     keep = []
     for c in out:
@@ -258,7 +258,7 @@ def shrink(case):
 
 TRUSTED_BASE = B.TRUSTED_BASE + [
     "the sentinel convention: the generator marks a tag as 'escaped' exactly when the effective setting of the file it writes the tag into "
-    "is xhtml_escape/escape, and as 'raw' for raw tags and files with autoescape None; check_case / py_check then judge the bytes between sentinels",
+    "is xhtml_escape/escape, and as 'raw' for raw tags and files with autoescape None; py_check then judges the bytes between sentinels (check_case compares the output with the per-file annotated interpretation)",
     "C21's model of escape.xhtml_escape (html.escape with quote=True over UTF-8 decoded input)",
 ]
 ASSUMPTIONS = B.ASSUMPTIONS + ["values in the correspondence are non-raising (str, bytes that are valid UTF-8, objects whose __str__ returns text); raising values are covered by C19"]
@@ -269,4 +269,4 @@ LEVEL_TEXT = ("Machine-checked (Coq): autoescaping is a per-file annotation (ure
               "lexical rule and restores the current template, the compiled lines of one tag append exactly utf8(f(utf8(value))), and with xhtml_escape the "
               "contribution has no markup byte; tied to tornado.template by C19's code/output correspondence plus the sentinel oracle on generate() output.")
 LEVEL_NOTE = "Trusted: as C19, plus the sentinel convention of the generator and C21's xhtml_escape model."
-TECHNIQUE = "Coq proof (fuel induction relating stateful writer to lexical resolution; per-file annotation lemma) + differential correspondence + sentinel oracle (Coq check_case and independent Python py_check)"
+TECHNIQUE = "Coq proof (fuel induction relating stateful writer to lexical resolution; per-file annotation lemma) + differential correspondence + per-file-annotation checker (Coq check_case, proved to accept the model) + sentinel oracle (independent Python py_check)"
